@@ -2,6 +2,7 @@ package main
 
 import (
 	"fmt"
+	"go/constant"
 	"go/token"
 	"sort"
 
@@ -56,6 +57,48 @@ func hasPosEqualityGuard(b *ssa.BasicBlock) bool {
 		}
 	}
 	return false
+}
+
+// membershipEstablished: block b is reached only after an element of a list compared equal (by Pos()) to another
+// cursor, either directly (the equality guards b) or through a flag that is set to true only under such an equality.
+func membershipEstablished(b *ssa.BasicBlock) bool {
+	if hasPosEqualityGuard(b) {
+		return true
+	}
+	for _, a := range guardAtoms(b) {
+		if !a.Pol {
+			continue
+		}
+		if ph, ok := a.V.(*ssa.Phi); ok && flagFromEquality(ph, map[*ssa.Phi]bool{}) {
+			return true
+		}
+	}
+	return false
+}
+
+func flagFromEquality(ph *ssa.Phi, seen map[*ssa.Phi]bool) bool {
+	if seen[ph] {
+		return true
+	}
+	seen[ph] = true
+	for i, e := range ph.Edges {
+		switch x := e.(type) {
+		case *ssa.Const:
+			if x.Value == nil {
+				return false
+			}
+			if constant.BoolVal(x.Value) && !hasPosEqualityGuard(ph.Block().Preds[i]) {
+				return false
+			}
+		case *ssa.Phi:
+			if !flagFromEquality(x, seen) {
+				return false
+			}
+		default:
+			return false
+		}
+	}
+	return true
 }
 
 type sink struct {
@@ -213,7 +256,7 @@ func (w *World) checkRootHandling(P string, f *Facts, r *Roles, ef *ExecFacts) {
 					if !ok {
 						return
 					}
-					if _, ok := isMethodCall(sl.X, "Children"); !ok {
+					if _, ok := isMethodCall(throughCells(sl.X), "Children"); !ok {
 						return
 					}
 					nonConst := false
@@ -229,9 +272,29 @@ func (w *World) checkRootHandling(P string, f *Facts, r *Roles, ef *ExecFacts) {
 						return
 					}
 					n6++
-					g := hasPosEqualityGuard(sl.Block())
+					g := membershipEstablished(sl.Block())
 					w.check(P, "R01.6", fmt.Sprintf("axis %s: sibling slice in %s", axis, fn.Name()), sl.Pos(), g,
 						fmt.Sprintf("slice of the parent's children with a search index as bound; taken only when the search matched: %v", g))
+				})
+				// element-wise form: a child of the parent collected one at a time
+				allInstrs(fn, func(in ssa.Instruction) {
+					ld, ok := in.(*ssa.UnOp)
+					if !ok || ld.Op != token.MUL {
+						return
+					}
+					ia, ok := ld.X.(*ssa.IndexAddr)
+					if !ok {
+						return
+					}
+					if _, ok := isMethodCall(throughCells(ia.X), "Children"); !ok {
+						return
+					}
+					for _, s := range resultSinks(ld) {
+						n6++
+						g := membershipEstablished(s.In.Block())
+						w.check(P, "R01.6", fmt.Sprintf("axis %s: sibling element %s in %s", axis, s.Kind, fn.Name()), s.In.Pos(), g,
+							fmt.Sprintf("a child of the context node's parent is %s; only on a path where the context node was found among those children: %v", s.Kind, g))
+					}
 				})
 			}
 		}
